@@ -31,7 +31,8 @@
 (* pinned encoding).                                                       *)
 EXTENDS Values, SequencesExt
 
-CONSTANTS MaxN,        \* longest string varied freely
+CONSTANTS MaxN,     \* longest string varied freely
+          PairN,    \* longest string where two components of an edge / label entry vary together
           Family    \* which tuple family this run explores: "vertex" | "edge" | "label" | "graph"
 
 Bytes == {"SEP", "a", "b", "DOT", "BAR", "E1", "FF"}
@@ -79,7 +80,7 @@ EntryValuePrefix(field, term) == JoinSeq(<<Fam("i"), field, <<"E1">>, term, <<>>
 DocKey(doc)                == JoinSeq(<<Fam("D"), doc>>)
 
 \* parses (1-based: tmp[1] is the family marker); PANIC where the code would index out of range
-PANIC == [panic |-> TRUE]
+PANIC == [panic |-> <<"PANIC">>]
 GraphKeyParse(k)  == LET t == Split(k) IN t[2]
 VertexKeyParse(k) == LET t == Split(k) IN [g |-> t[2], id |-> t[3]]
 EdgeKeyParse(k)   == LET t == Split(k) IN
@@ -111,13 +112,14 @@ Leading(parts, n) == {SubSeq(r, 1, n) : r \in Regroup(parts, n + 1)}
 ----------------------------------------------------------------------------
 VARIABLES t
 Plain == <<"a">>
-Small == Str(IF MaxN > 2 THEN 2 ELSE MaxN)
+Small == Str(PairN)
 
 VertexTuples(z) == {[g |-> g, id |-> id, l |-> Plain] : g \in {x \in Str(MaxN) : AccGraph(x)}, id \in Str(MaxN) \ {<<>>}}
 EdgePairs(z) ==
-  LET C == {"g", "id", "s", "d", "l"} IN
-  UNION {{[c \in C |-> IF c = p[1] THEN x ELSE IF c = p[2] THEN y ELSE Plain] : x \in Small, y \in Small} : p \in {q \in C \X C : q[1] # q[2]}}
-  \cup UNION {{[c \in C |-> IF c = k THEN x ELSE Plain] : x \in Str(MaxN)} : k \in C}
+  LET C == <<"g", "id", "s", "d", "l">>
+      Rec(i, x, j, y) == [c \in {"g", "id", "s", "d", "l"} |-> IF c = C[i] THEN x ELSE IF c = C[j] THEN y ELSE Plain]
+  IN UNION {{Rec(p[1], x, p[2], y) : x \in Small, y \in Small} : p \in {q \in (1..5) \X (1..5) : q[1] < q[2]}}
+     \cup UNION {{Rec(k, x, k, x) : x \in Str(MaxN)} : k \in 1..5}
 EdgeTuples(z) == {e \in EdgePairs(0) : AccGraph(e.g) /\ AccEdge(e.id, e.l, e.s, e.d)}
 LabelTuples(z) == {[g |-> g, kind |-> k, l |-> l, id |-> id] : g \in {<<"a">>, <<"b">>}, k \in {"v", "e"}, l \in Str(MaxN) \ {<<>>}, id \in Small \ {<<>>}}
 GraphTuples(z) == {[g |-> g] : g \in {x \in Str(MaxN + 1) : AccGraph(x)}}
@@ -184,16 +186,17 @@ LabelFailures ==
 Failures == CASE Family = "vertex" -> VertexFailures [] Family = "edge" -> EdgeFailures
               [] Family = "label" -> LabelFailures [] Family = "graph" -> GraphFailures
 
-HasSep(s) == \E i \in DOMAIN s : s[i] = "SEP"
+HasSep(s) == \E i \in DOMAIN s : s[i] \in {"SEP", "PANIC"}
+HasSepRec(r) == \E f \in DOMAIN r : f # "kind" /\ HasSep(r[f])
 \* the invariants proper
 RoundTrip      == \A w \in Failures : w.prop # "RoundTrip"
 Injective      == \A w \in Failures : w.prop # "Injective"
 PrefixFree     == \A w \in Failures : w.prop # "PrefixFree"
 NoDocCollision == \A w \in Failures : w.prop # "NoDocCollision"
 \* never violated: prints the witnesses
-EmitWitnesses == \A w \in Failures : Emit("w", w)
+\* (a witness whose separator is only in the OTHER tuple exists for every tuple: printed for short tuples only)
+AllShort(r) == \A f \in DOMAIN r : f = "kind" \/ Len(r[f]) <= 1
+EmitWitnesses == \A w \in Failures : (HasSepRec(w.t) \/ AllShort(w.t)) => Emit("w", w)
 \* sanity of the model: without the separator byte in any component the key encoding is faithful
-FaithfulWithoutSep ==
-  (\A f \in DOMAIN t : (f = "kind" \/ ~HasSep(t[f]))) =>
-     \A w \in Failures : w.prop = "NoDocCollision"
+FaithfulWithoutSep == \A w \in Failures : w.prop = "NoDocCollision" \/ HasSepRec(w.t) \/ HasSepRec(w.other)
 =============================================================================
